@@ -81,6 +81,82 @@ REBINDINGS = {
 
 _MISSING = object()
 
+# The same rebindings keyed by the *identity* of the numpy function, so that they follow the function
+# through any import style (`from numpy import isnan`, `from numpy import isnan as _isnan`,
+# `import numpy as np; np.isnan`) and into any AutoCarver module: a maintenance change of the import
+# style or a function moved to another module must not turn into a harness error.
+import math as _math
+
+FUNC_REBINDINGS = {
+    "R1": {np.isnan: sym_isnan, np.isfinite: sym_isfinite, _math.isnan: sym_isnan, _math.isfinite: sym_isfinite},
+    "R2": {np.digitize: sym_digitize},
+    "R4": {np.zeros: sym_zeros},
+    "R5": {np.isclose: sym_isclose},
+}
+
+
+class _ModuleView:
+    """Stands for `numpy` / `math` imported as a module inside an AutoCarver module: every attribute is the
+    real one except the rebound functions."""
+
+    def __init__(self, real, overrides):
+        object.__setattr__(self, "_real", real)
+        object.__setattr__(self, "_over", overrides)
+
+    def __getattr__(self, name):
+        real = object.__getattribute__(self, "_real")
+        v = getattr(real, name)
+        try:
+            return object.__getattribute__(self, "_over").get(v, v)
+        except TypeError:  # unhashable attribute
+            return v
+
+
+_LOADED = [False]
+
+
+def _load_all():
+    """Import every AutoCarver submodule once, so that the identity scan sees all of them."""
+    if _LOADED[0]:
+        return
+    import importlib
+    import pkgutil
+
+    pkg = importlib.import_module("AutoCarver")
+    for info in pkgutil.walk_packages(pkg.__path__, "AutoCarver."):
+        try:
+            importlib.import_module(info.name)
+        except Exception:  # an optional submodule that does not import is not our concern here
+            pass
+    _LOADED[0] = True
+
+
+def _identity_items(names):
+    import sys
+
+    _load_all()
+
+    table = {}
+    for n in names:
+        table.update(FUNC_REBINDINGS.get(n, {}))
+    if not table:
+        return []
+    items = []
+    for modname, mod in list(sys.modules.items()):
+        if mod is None or not (modname == "AutoCarver" or modname.startswith("AutoCarver.")):
+            continue
+        for attr, val in list(vars(mod).items()):
+            if val is np or val is _math:
+                items.append((modname, attr, _ModuleView(val, table)))
+                continue
+            try:
+                new = table.get(val)
+            except TypeError:
+                continue
+            if new is not None:
+                items.append((modname, attr, new))
+    return items
+
 
 @contextlib.contextmanager
 def rebound(ctx, names, extra=()):
@@ -92,7 +168,7 @@ def rebound(ctx, names, extra=()):
 
     saved = []
     try:
-        items = [it for n in names for it in REBINDINGS[n]] + list(extra)
+        items = _identity_items(names) + list(extra)
         for modname, attr, new in items:
             mod = importlib.import_module(modname)
             saved.append((mod, attr, mod.__dict__.get(attr, _MISSING)))  # builtins (set) are not module globals
